@@ -156,6 +156,24 @@ func solveOne(o *Obligation, dir string, idx int, timeoutS int, all bool) *Solve
 		}
 	}
 	res.Secs = time.Since(start).Seconds()
+	if res.Status == "unknown" && !o.Vacuity {
+		// retry without the real-arithmetic assumptions
+		if ls, dropped := o.LightScript(); dropped {
+			file2 := filepath.Join(dir, fmt.Sprintf("o%04d.light.smt2", idx))
+			_ = os.WriteFile(file2, []byte("; "+o.Name+" (light)\n"+ls+"(get-model)\n"), 0o644)
+			for _, sd := range avail {
+				st, _ := runSolver(context.Background(), sd, file2, timeoutS)
+				if st == "unsat" {
+					res.Status, res.Solver = "unsat", sd.name+"+light"
+					break
+				}
+				if st == "sat" {
+					break
+				}
+			}
+			res.Secs = time.Since(start).Seconds()
+		}
+	}
 	if res.Status == "unknown" && !o.Vacuity && len(o.Merges) > 0 {
 		splitSolve(o, res, dir, idx, timeoutS, avail)
 		res.Secs = time.Since(start).Seconds()
